@@ -93,6 +93,12 @@ def o_program(inp):
 ORACLES = {"history": o_history, "pop_arity": o_pop_arity, "program": o_program}
 
 
+def lit(x):
+    """a value as a Vyxal literal (arguments may be small lists: a one-argument scope whose argument is a list must still
+    deliver that list, not its items)"""
+    return "⟨" + "|".join(lit(y) for y in x) + "⟩" if isinstance(x, list) else str(x)
+
+
 def compile_history(inputs, ops):
     """history -> program; every read is recorded with ⅛ (push to the global array). Scopes are λ…;† with literal arguments
     (kind "lam": the body leaves 0 on its stack; kind "lamret": the body leaves its stack EMPTY, so the lambda's return value
@@ -124,15 +130,15 @@ def compile_history(inputs, ops):
                     name = "f" + "abcdefghij"[uid[0] % 10] + "abcdefghij"[(uid[0] // 10) % 10]
                     # the definition comes first, the reads happen at the call: emit the body into a side buffer
                     inner, _ = emit(body, args)
-                    s += "@" + name + ":" + str(len(args)) + "|" + "_" * len(args) + inner + ";" + " ".join(map(str, args)) + " @" + name + ";"
+                    s += "@" + name + ":" + str(len(args)) + "|" + "_" * len(args) + inner + ";" + " ".join(map(lit, args)) + " @" + name + ";"
                 elif kind == "lamret":
                     inner, jj = emit(body, args)
                     cyc = args
-                    s += " ".join(map(str, args)) + " λ" + str(len(args)) + "|" + "_" * len(args) + inner + ";†⅛"
+                    s += " ".join(map(lit, args)) + " λ" + str(len(args)) + "|" + "_" * len(args) + inner + ";†⅛"
                     want.append(cyc[jj % len(cyc)] if cyc else 0)
                 else:
                     inner, _ = emit(body, args)
-                    s += " ".join(map(str, args)) + " λ" + str(len(args)) + "|" + "_" * len(args) + inner + "0;†_"
+                    s += " ".join(map(lit, args)) + " λ" + str(len(args)) + "|" + "_" * len(args) + inner + "0;†_"
         return s, j
 
     return emit(ops, None)[0], want
@@ -169,7 +175,8 @@ def run(ctx, widen=False):
             elif r < 0.7:
                 ops.append(["i"])
             elif depth > 0:
-                ops.append(["n", [rng.randint(1, 9) for _ in range(rng.randint(0, 3))], rand_tree(depth - 1), rng.choice(["lam", "lamret", "lamret", "fn"])])
+                ops.append(["n", [(rng.randint(1, 9) if rng.random() < 0.75 else [rng.randint(1, 9) for _ in range(rng.randint(1, 3))]) for _ in range(rng.randint(0, 3))],   # (not ⟨⟩: an empty item takes the value under it)
+                            rand_tree(depth - 1), rng.choice(["lam", "lamret", "lamret", "fn"])])
         return ops
     pcases = []
     for _ in range(3000 if thorough else 600):
